@@ -446,6 +446,7 @@ func terminationOf(i *value.VmInterrupt) bool {
     requires core.CancelCtx != nil && *core.CancelCtx != nil && core.parent != nil && len(core.CallStack) > 0
     modifies nothing
     ensures @termination result != nil ==> terminationOf(result)
+    ensures @cancellation-is-seen cancelled(*core.CancelCtx) <==> result != nil
     ghostset sincePoll = 0
 @*/
 
